@@ -26,7 +26,10 @@ def _task_name(task):
     # Any object with __awake__ can be scheduled, not only the library's
     # functions and routines (which keep their function in func).
     func = getattr(task, 'func', task)
-    return getattr(func, '__qualname__', repr(func))
+    name = getattr(func, '__qualname__', None)
+    if name is None:  # Not repr(func), that's user code (it can fail).
+        name = type(func).__qualname__
+    return name
 
 
 class ClockError(RuntimeError):
